@@ -14,7 +14,11 @@ From V Require Import Common.Base C17.WriteSM.
 Section WithFS.
 Variable phys : path -> path.
 
-Definition step_io (fixed : bool) (opt : options) (st : state) (oc : outcome) (wfail : list path) : state * result :=
+(* after the write phase: for absPath in failedWrites { if old has it, keep the old hash, else delete } *)
+Definition forget_failed (newH old : fmap hash) (failed : list path) : fmap hash :=
+  fold_left (fun m p => match lookup old p with Some h => upd m p h | None => remove m p end) failed newH.
+
+Definition step_io_gen (fixed fixio : bool) (opt : options) (st : state) (oc : outcome) (wfail : list path) : state * result :=
   let '(results, err1) :=
     if scan_err oc then ([], true)
     else let '(res, cerr) := compile opt oc in
@@ -35,8 +39,13 @@ Definition step_io (fixed : bool) (opt : options) (st : state) (oc : outcome) (w
     else [] in
   let out := if write opt && to_stdout opt && negb err1 && negb err2
              then match results with o :: _ => Some (o_data o) | [] => None end else None in
-  (mkState (apply phys (disk st) effects) (if fixed && err1 then latest st else newH),
+  let failed := map o_path (filter (fun o => mem (o_path o) wfail) attempted) in
+  let newH' := if fixio then forget_failed newH (latest st) failed else newH in
+  (mkState (apply phys (disk st) effects) (if fixed && err1 then latest st else newH'),
    mkResult err1 (err1 || err2 || err3 || onend_err oc) reported effects out).
+
+Definition step_io (fixed : bool) := step_io_gen fixed true.
+Definition step_io_before_b32af0b (fixed : bool) := step_io_gen fixed false.
 
 Fixpoint trace_io (fixed : bool) (opt : options) (st : state) (ocs : list (outcome * list path)) : list result :=
   match ocs with
@@ -55,28 +64,35 @@ Qed.
 Lemma existsb_mem_nil (l : list outfile) : existsb (fun o => mem (o_path o) []) l = false.
 Proof. induction l as [|a l IH]; simpl; [reflexivity | exact IH]. Qed.
 
-(* without write failures [step_io] is [step_gen] *)
-Lemma step_io_nil fixed opt st oc : step_io fixed opt st oc [] = step_gen phys fixed opt st oc.
+Lemma filter_mem_nil (l : list outfile) : filter (fun o => mem (o_path o) []) l = [].
+Proof. induction l as [|a l IH]; simpl; [reflexivity | exact IH]. Qed.
+
+(* without write failures [step_io] is [step_gen] (before and after b32af0b) *)
+Lemma step_io_gen_nil fixed fixio opt st oc : step_io_gen fixed fixio opt st oc [] = step_gen phys fixed opt st oc.
 Proof.
-  unfold step_io, step_gen.
+  unfold step_io_gen, step_gen.
   destruct (if scan_err oc then ([], true)
             else let '(res, cerr) := compile opt oc in (res, cerr || cancel_early oc || cancel_late oc)) as [results err1].
-  rewrite existsb_mem_nil, orb_false_r.
+  rewrite existsb_mem_nil, orb_false_r, filter_mem_nil.
+  change (forget_failed ?m ?o (map o_path [])) with m.
+  assert (X : forall (m : fmap hash), (if fixio then m else m) = m) by (destruct fixio; reflexivity). rewrite X.
   destruct (write opt); cbn [andb]; [|reflexivity].
   destruct (to_stdout opt); cbn [andb negb]; [reflexivity|].
   destruct err1; cbn [negb].
   - reflexivity.
   - rewrite flat_map_filter_skip. reflexivity.
 Qed.
+Lemma step_io_nil fixed opt st oc : step_io fixed opt st oc [] = step_gen phys fixed opt st oc.
+Proof. apply step_io_gen_nil. Qed.
 
 (* every write of [step_io] is a reported output, in a build without error
    when the write phase started, at a path where writing does not fail *)
-Lemma io_writes_are_reported fixed opt st oc wf st' r p c :
-  step_io fixed opt st oc wf = (st', r) -> In (EWrite p c) (r_effects r) ->
+Lemma io_writes_are_reported fixed fixio opt st oc wf st' r p c :
+  step_io_gen fixed fixio opt st oc wf = (st', r) -> In (EWrite p c) (r_effects r) ->
   r_failed_early r = false /\ write opt = true /\ to_stdout opt = false /\ ~ In p wf /\
   exists o, In o (r_outputs r) /\ o_path o = p /\ o_data o = c.
 Proof.
-  unfold step_io.
+  unfold step_io_gen.
   destruct (if scan_err oc then ([], true)
             else let '(res, cerr) := compile opt oc in (res, cerr || cancel_early oc || cancel_late oc)) as [results err1].
   intro E. injection E as E1 E2. subst st' r. cbn [r_effects r_failed_early r_outputs].
@@ -98,17 +114,17 @@ Proof.
 Qed.
 
 (* a write that is attempted and fails makes the build report errors *)
-Lemma io_failure_is_reported fixed opt st oc wf st' r o :
-  step_io fixed opt st oc wf = (st', r) ->
+Lemma io_failure_is_reported fixed fixio opt st oc wf st' r o :
+  step_io_gen fixed fixio opt st oc wf = (st', r) ->
   r_failed_early r = false -> write opt = true -> to_stdout opt = false ->
-  In o (r_outputs r) -> skip phys st (latest st') o = false -> In (o_path o) wf ->
+  In o (r_outputs r) -> skip phys st (hashes_of (r_outputs r)) o = false -> In (o_path o) wf ->
   r_errors r = true.
 Proof.
-  unfold step_io.
+  unfold step_io_gen.
   destruct (if scan_err oc then ([], true)
             else let '(res, cerr) := compile opt oc in (res, cerr || cancel_early oc || cancel_late oc)) as [results err1].
-  intro E. injection E as E1 E2. subst st' r. cbn [r_failed_early r_outputs r_errors latest].
-  intros HF HW HS. subst err1. rewrite HW, HS. cbn [andb negb]. rewrite andb_false_r, map_id.
+  intro E. injection E as E1 E2. subst st' r. cbn [r_failed_early r_outputs r_errors].
+  intros HF HW HS. subst err1. rewrite HW, HS. cbn [andb negb]. rewrite map_id.
   intros Ho Hs Hin.
   assert (X : existsb (fun o0 => mem (o_path o0) wf)
                 (filter (fun o0 => negb (skip phys st (hashes_of results) o0)) results) = true).
@@ -119,3 +135,16 @@ Proof.
 Qed.
 
 End WithFS.
+
+(* the current step ([step_io] = [step_io_gen _ _ true]) *)
+Lemma io_writes_are_reported_cur phys fixed opt st oc wf st' r p c :
+  step_io phys fixed opt st oc wf = (st', r) -> In (EWrite p c) (r_effects r) ->
+  r_failed_early r = false /\ write opt = true /\ to_stdout opt = false /\ ~ In p wf /\
+  exists o, In o (r_outputs r) /\ o_path o = p /\ o_data o = c.
+Proof. apply io_writes_are_reported. Qed.
+Lemma io_failure_is_reported_cur phys fixed opt st oc wf st' r o :
+  step_io phys fixed opt st oc wf = (st', r) ->
+  r_failed_early r = false -> write opt = true -> to_stdout opt = false ->
+  In o (r_outputs r) -> skip phys st (hashes_of (r_outputs r)) o = false -> In (o_path o) wf ->
+  r_errors r = true.
+Proof. apply io_failure_is_reported. Qed.
